@@ -12,6 +12,7 @@ pub mod liar;
 pub mod full;
 pub mod maphist;
 pub mod model;
+pub mod noheap;
 pub mod panicsafe;
 pub mod sethist;
 
